@@ -2701,15 +2701,30 @@ func (p *Prog) headerFlagsExact() []Ob {
 			for _, b := range fn.Blocks {
 				for _, ins := range b.Instrs {
 					bo, ok := ins.(*ssa.BinOp)
-					if !ok || bo.Op != token.AND {
+					if !ok {
 						continue
 					}
-					for _, side := range []ssa.Value{bo.X, bo.Y} {
-						if k, isK := constInt(side); isK {
-							if bt, ok := side.Type().Underlying().(*types.Basic); ok && (bt.Kind() == types.Uint8 || bt.Kind() == types.UntypedInt) {
+					isByte := func(v ssa.Value) bool {
+						bt, ok := v.Type().Underlying().(*types.Basic)
+						return ok && (bt.Kind() == types.Uint8 || bt.Kind() == types.UntypedInt)
+					}
+					switch bo.Op {
+					case token.AND:
+						for _, side := range []ssa.Value{bo.X, bo.Y} {
+							if k, isK := constInt(side); isK && isByte(side) {
 								cover |= k
 								nMasks++
 							}
+						}
+					case token.AND_NOT: // x &^ known: everything but the known bits
+						if k, isK := constInt(bo.Y); isK && isByte(bo.X) {
+							cover |= ^k & 0xff
+							nMasks++
+						}
+					case token.SHR: // x >> k: the bits from k upwards
+						if k, isK := constInt(bo.Y); isK && isByte(bo.X) && k >= 0 && k < 8 {
+							cover |= (0xff << uint(k)) & 0xff
+							nMasks++
 						}
 					}
 				}
